@@ -8,9 +8,9 @@ MC_NOTE = ("Trusted: TLC, the TLA+ specification as a faithful reading of the pr
            "stated small constants; random beyond.")
 
 # id -> (built?, technique, level text, design ref, note)
-BOOK_TECH = "TLA+ spec (BookOps/BookProps/Book.tla) model-checked by TLC; TLC-generated histories replayed into the real OrderBook with full-state comparison; recorded random traces validated by TLC (BookTrace.tla)"
+BOOK_TECH = "TLA+ spec (BookOps/BookProps/Book.tla) model-checked by TLC; TLC-generated histories replayed into the real OrderBook with full-state comparison; recorded random traces validated by TLC (BookTrace.tla, with the implementation-shaped model BookImpl.tla run in lock-step and bound through the entry keys of the JSON snapshot)"
 
-ENV_TECH = "TLA+ spec (MarketOps.tla + EnvGen.tla): TLC enumerates every bounded path and, by power-set construction over all permutations, the complete set of outcomes allowed per path; real Env/MarketEnv run per path under several seeds: outcome-set membership (hook-free) + exact match for the hook-reported schedule"
+ENV_TECH = "TLA+ spec (MarketOps.tla + EnvGen.tla): TLC enumerates every bounded path and, by power-set construction over all permutations, the complete set of outcomes allowed per path; real Env/MarketEnv run per path under several seeds: outcome-set membership (hook-free) + exact match for the hook-reported schedule; long random runs recorded from the real environments validated by TLC (EnvTrace.tla: hook schedule, or hook-free schedule inference)"
 
 TABLE = {
     "C01": (BOOK_TECH + "; drain probe reveals queue order",
@@ -52,14 +52,14 @@ TABLE = {
     "C14": ("TLA+ spec (MarketOps.tla: asset -> BookOps record, shared clock) with TLC-generated histories replayed into Market<2>/Market<3> (MarketGen.tla) and outcome sets for MarketEnv (EnvGen.tla)",
             "The specification is literally 'independent books sharing one clock'; every bounded history of direct operations over 2-3 assets with per-asset ticks (same local ids on several assets, per-asset and all-asset queries, reloads) is replayed into the real Market and compared asset by asset; independence as TLC action property; shuffled cross-asset batches through MarketEnv outcome sets.",
             "6 C14"),
-    "C16": ("TLA+ relations (Agents.tla, Big.tla) between an agent's observation and the instructions it queued; every update call of seeded runs recorded from the real agents is validated by TLC (AgentTrace.tla); aborts caught by the recorder",
+    "C16": ("TLA+ relations (Agents.tla, Big.tla) between an agent's observation and the instructions it queued; every update call of seeded runs recorded from the real agents is validated by TLC (AgentTrace.tla); aborts caught by the recorder; SimTrace.tla validates the same relations inside complete simulations with the observation derived by TLC from the specification state",
             "The agents are specified as relations: which instruction sequences are possible given what the agent could observe (own active orders, twice the mid-price, parameters), what is forbidden at probability 0 and mandatory at probability >= 1. Every update call of seeded runs over the parameter matrix (kind x single/multi asset x tick 1..10 x probabilities {0, 0.3, 1, 1.5} x sigma {1, 10} x starting book, plus scripted boundary draws 0 / all-ones) is validated by TLC; prices up to 2^32 handled as digit pairs. A panic anywhere is a violation. Interior probabilities are not measured.",
             "6 C16"),
     "C17": ("TLA+ relation MomentumRel with the momentum signal recomputed exactly by TLC (dyadic integers) from the observed mid-prices; harness-imposed price paths at saturated demand; mirrored run pairs validated by TLC",
             "At saturated demand the documented rule is deterministic: TLC recomputes M from the logged mid-price sequence (decay 1 and 1/2 exactly) and requires buys for M > 0, sells for M < 0, nothing for M = 0, one market order (and one limit order when the ratio is >= 1) per trader; each run is repeated on the reflected price path with the same seed and TLC requires the reflected order flow (sides swapped, same sizes, prices reflected about the level).",
             "6 C17"),
-    "C09": ("TLC (SimEq.tla) compares complete simulation outputs of repeated runs in separate OS processes (same seed twice, progress bar on, seeds + 1 and + 2^32, boundary seeds 0/1/2^64-1) line by line; runs go through the public runners with derive-macro agent sets",
-            "For a seeded matrix of configurations (seeds x step counts x step sizes x tick sizes x six agent compositions incl. nested derived sets, single- and multi-asset) the simulation binary is run as five separate OS processes; TLC requires outputs A = B = C (orders, trades, recorded level-2 history, per-step volume) and D (every seed + 1), E (every seed + 2^32) different from A for every substantial run; the seed list contains 0, 1, 2^32-1, 2^63 and 2^64-1. The behaviours themselves are bound to the specification by C08 and C16. A nondeterminism source stable across these repetitions is not seen.",
+    "C09": ("TLC (SimEq.tla) compares complete simulation outputs of repeated runs in separate OS processes (same seed twice, progress bar on, seeds + 1 and + 2^32, boundary seeds 0/1/2^64-1) line by line; runs go through the public runners with derive-macro agent sets; SimTrace.tla validates complete simulations recorded from inside the runners",
+            "For a seeded matrix of configurations (seeds x step counts x step sizes x tick sizes x six agent compositions incl. nested derived sets, single- and multi-asset) the simulation binary is run as five separate OS processes; TLC requires outputs A = B = C (orders, trades, recorded level-2 history, per-step volume) and D (every seed + 1), E (every seed + 2^32) different from A for every substantial run; the seed list contains 0, 1, 2^32-1, 2^63 and 2^64-1. That the runs are behaviours of the specification at all is decided by SimTrace.tla: complete simulations recorded from inside the real runners (recording agent set, both progress-bar branches) are validated event by event - loop structure of Sim, every step, every submission, every member's instructions. A nondeterminism source stable across these repetitions is not seen.",
             "6 C09"),
     "C15": ("TLC (Shuffle.tla): Fisher-Yates bijection by enumeration for n <= 6; exact Bernstein + union-bound predicate evaluated by TLC on histograms recorded from >= 2.16*10^5 seeded real steps per batch size; generator-state-only determinism clauses (other instructions, instructions referring to orders created in the same step, environments with a history of earlier steps)",
             "Statistical: see level text in the evidence. TLC proves the model's uniformity by bijection and evaluates the stated concentration bound on recorded histograms (all n! permutations for n = 2..6, position-by-item and pairwise tables up to n = 64, Env and MarketEnv, mixed instruction kinds) and the determinism clauses.",
